@@ -674,7 +674,82 @@ def wbuf_lifetime(V, **params):
     return c03.wbuf(V, **params)
 
 
-FUNCS = {"ifm_fuse": ifm_fuse, "wbuf_lifetime": wbuf_lifetime, "lr_extract": lr_extract, "hc_indices": hc_indices, "hc_wrapper": hc_wrapper, "hc_search_step": hc_search_step, "hc_fix_perm": hc_fix_perm,
+def report(V):
+    """the footprint a subgraph reports is the sum of what was allocated into it: the REAL allocate_tensors (the allocators themselves stubbed to a
+    symbolic total) called three times for one subgraph - feature maps, then constants into the SAME memory area (Sram-only modes), then a call
+    that may be a dry test or exceed a symbolic size limit.  memory_used / memory_used_per_type equal the sums of the successful calls, a failed or
+    dry call leaves them untouched and undoes its addresses, and the verdict is total <= limit."""
+    import ethosu.vela.tensor_allocation as ta
+    from ethosu.vela.tensor import MemArea, MemType
+
+    t1, t2, t3 = V.int("total1", 1, 1 << 32), V.int("total2", 1, 1 << 32), V.int("total3", 1, 1 << 32)
+    limit = V.int("max_size", 0, 1 << 33)
+    dry = bool(V.bool("dry_test"))
+    undone = []
+
+    class LR:
+        def set_address(self, a):
+            undone.append(a)
+
+    totals = iter([t1, t2, t3])
+    saved = ta.allocate
+    ta.allocate = lambda *a, **k: (_Obj(ranges={"x": LR(), "y": LR()}), next(totals))
+    sg = _Obj(memory_used={}, memory_used_per_type={}, name="sg")
+    nng = _Obj(subgraphs=[], get_root_subgraph=lambda: sg, memory_used=None)
+    try:
+        with core.shims((ta, {"min": core.smin, "max": core.smax})):
+            r1 = ta.allocate_tensors(nng, sg, None, MemArea.Dram, {MemType.Scratch, MemType.Scratch_fast})
+            r2 = ta.allocate_tensors(nng, sg, None, MemArea.Dram, {MemType.Permanent_CPU})
+            n_before = len(undone)
+            r3 = ta.allocate_tensors(nng, sg, None, MemArea.Dram, {MemType.Scratch}, max_size=limit, dry_test=dry)
+    finally:
+        ta.allocate = saved
+    fits = L(t3) <= L(limit)
+    kept = z3.And(fits, z3.BoolVal(not dry))
+    area = sg.memory_used.get(MemArea.Dram, 0)
+    per = sg.memory_used_per_type
+    return [("unlimited allocations succeed", r1 is True and r2 is True),
+            ("the verdict of a limited allocation is total <= limit", B(r3) == fits),
+            ("the area's footprint is the sum of the allocations that were kept", L(area) == L(t1) + L(t2) + z3.If(kept, L(t3), 0)),
+            ("scratch footprint", L(per.get(MemType.Scratch, 0)) == L(t1) + z3.If(kept, L(t3), 0)),
+            ("fast scratch footprint", L(per.get(MemType.Scratch_fast, 0)) == L(t1)),
+            ("constants footprint", L(per.get(MemType.Permanent_CPU, 0)) == L(t2)),
+            ("the root subgraph's footprint is what the network reports", nng.memory_used is sg.memory_used),
+            ("a failed or dry allocation undoes exactly its own addresses", z3.If(kept, len(undone) == n_before, z3.BoolVal(len(undone) == n_before + 2 and all(a is None for a in undone[n_before:]))))]
+
+
+def address_map(V, nsteps):
+    """Tensor.address goes through TensorAddressMap (equivalence id x memory type -> address): every history of `nsteps` set operations (which of two
+    ids, which of two memory types, a symbolic address or None = allocation undone) against a plain dictionary model - the address read back for
+    every (id, type) is the last one set for exactly that pair."""
+    from ethosu.vela.tensor import TensorAddressMap, MemType
+
+    ids, types = ["id_a", "id_b"], [MemType.Permanent_NPU, MemType.Permanent_CPU]
+    saved = TensorAddressMap.address_map
+    TensorAddressMap.clear_address_map()
+    model = {}
+    try:
+        for i in range(nsteps):
+            e = V.choice("step%d_id" % i, ids)
+            t = V.choice("step%d_type" % i, types)
+            none = bool(V.bool("step%d_undo" % i))
+            a = None if none else V.int("step%d_addr" % i, 0, 1 << 32)
+            prev = model.get((e, t))
+            if a is not None and prev is not None:
+                V.assume(L(a) == L(prev))  # the documented precondition: a tensor is not given two different addresses without an undo in between
+            TensorAddressMap.set_address_for_tens(e, t, a)
+            model[(e, t)] = a
+        cl = []
+        for e in ids:
+            for t in types:
+                got, want = TensorAddressMap.get_address_for_tens(e, t), model.get((e, t))
+                cl.append(("address of (%s, %s) is the last one set for that pair" % (e, t.name), (got is None) if want is None else (got is not None and L(got) == L(want))))
+    finally:
+        TensorAddressMap.address_map = saved
+    return cl
+
+
+FUNCS = {"report": report, "address_map": address_map, "ifm_fuse": ifm_fuse, "wbuf_lifetime": wbuf_lifetime, "lr_extract": lr_extract, "hc_indices": hc_indices, "hc_wrapper": hc_wrapper, "hc_search_step": hc_search_step, "hc_fix_perm": hc_fix_perm,
          "hc_allocate": hc_allocate, "greedy_step": greedy_step, "greedy_whole": greedy_whole, "verify_rejects": verify_rejects,
          "linear": linear, "lr_alignment": lr_alignment, "dispatch": dispatch}
 
@@ -754,6 +829,9 @@ def instances(tier, seed):
                         out.append(dict(key="linear/%d/%s/a%s" % (n, "".join(map(str, share)), "-".join(map(str, av[:n]))), fn="linear",
                                         params=dict(n=n, share=list(share), aligns=list(av[:n]))))
     out.append(dict(key="lr_alignment", fn="lr_alignment", params=dict(first=None, second=None)))
+    out.append(dict(key="report", fn="report", params={}))
+    for n in (2, 3):
+        out.append(dict(key="address_map/%d" % n, fn="address_map", params=dict(nsteps=n), weight=20))
     for shape in ("flat", "while", "nested2"):
         out.append(dict(key="lr_extract/%s" % shape, fn="lr_extract", params=dict(shape=shape)))
     from harness import c03
